@@ -1,6 +1,6 @@
 (** Extraction of the executable model.  Only [ExtrOcamlBasic] and [ExtrOcamlString] are used:
     numbers stay the Coq inductive types. *)
 From Coq Require Import ExtrOcamlBasic ExtrOcamlString.
-From EV Require Import Model.Script.
+From EV Require Import Model.Script Spec.SpecRun.
 Extraction Language OCaml.
-Extraction "model.ml" run_script.
+Extraction "model.ml" run_script run_spec15.
